@@ -118,6 +118,38 @@ def merged (world : Nat) (layersOf : Nat → List String) (inv : String → Nat)
 def restores (layersOf : Nat → List String) (factorWorker : Nat → String → Nat) (r : Nat) : List String :=
   (layersOf r).filter fun n => factorWorker r n == r
 
+/-! ### checkpoints, value level: what the merged state holds and what a load leaves on every rank.
+    `held r n` is what rank `r` holds for layer `n` when `state_dict()` is called (both factors as one value). -/
+
+/-- the `(name, layer_state_dict)` pairs a rank puts into `all_gather_object` -/
+def contribVals {α : Type} (layersOf : Nat → List String) (inv : String → Nat) (held : Nat → String → α)
+    (r : Nat) : List (String × α) :=
+  (partition layersOf inv r).map fun n => (n, held r n)
+
+/-- every write `layers[name] = layer_state_dict`, in the order in which `state_dict()` walks the gathered partitions -/
+def gathered {α : Type} (world : Nat) (layersOf : Nat → List String) (inv : String → Nat)
+    (held : Nat → String → α) : List (String × α) :=
+  (List.range world).flatMap (contribVals layersOf inv held)
+
+/-- Python `d[k] = v` over a list of writes: the dict ends with the LAST value written to a key -/
+def lastWrite {α : Type} (n : String) : List (String × α) → Option α
+  | [] => none
+  | (k, v) :: t =>
+    match lastWrite n t with
+    | some w => some w
+    | none => if k == n then some v else none
+
+/-- `state_dict()['layers'][n]` on every rank -/
+def mergedVal {α : Type} (world : Nat) (layersOf : Nat → List String) (inv : String → Nat)
+    (held : Nat → String → α) (n : String) : Option α :=
+  lastWrite n (gathered world layersOf inv held)
+
+/-- `load_state_dict(state)`: the factor worker of a layer found in the state takes the saved value, every
+    other (rank, layer) keeps what it has (`old`) -/
+def loadVal {α : Type} (layersOf : Nat → List String) (fw : Nat → String → Nat) (state : String → Option α)
+    (old : Nat → String → α) (r : Nat) (n : String) : α :=
+  if (restores layersOf fw r).contains n then (state n).getD (old r n) else old r n
+
 inductive Coll where | newGroupGloo | allGatherObject | barrier
 deriving Repr, DecidableEq
 
